@@ -73,7 +73,7 @@ def gen(rng, prop=None):
             elif kind == "fee":
                 f = min(bal, U // 2)
                 bal -= f
-                rows.append(["OUT", 0, us(inst), off, "FEE", rng.randrange(4), price, 0, f])
+                rows.append(["OUT", 0, us(inst), off, "FEE", rng.randrange(4), rng.choice([price, price, 0]), 0, f])
             else:
                 s = min(bal, rng.randint(1, 4) * U)
                 f = rng.choice([0, U // 4]) if s > U else 0
